@@ -353,7 +353,7 @@ def coq_prog(p):
 
 def lit(v):
     if isinstance(v, str):
-        return '"' + v + '"'
+        return v if v.startswith("$") else '"' + v + '"'
     return repr(v)
 
 
@@ -401,12 +401,15 @@ def colang_text(p):
 class Gen:
     """Structured programs of nesting depth <= 4: distinct intents, counter-bounded loops, subflow DAG."""
 
-    def __init__(self, rng):
+    def __init__(self, rng, tight_p=0.07):
         self.rng = rng
+        self.tight_p = tight_p
 
     def program(self):
         rng = self.rng
         self.nu = self.nb = self.na = self.nc = 0
+        self.loopvar = None
+        self.ntight = 0
         self.vars = ["x", "y", "s", "b"]
         self.stats = {"if": 0, "while": 0, "do": 0, "break": 0, "continue": 0, "exec": 0, "set": 0, "depth": 0}
         nsubs = rng.choice([0, 0, 1, 1, 2, 2, 3, 3, 4])
@@ -438,12 +441,41 @@ class Gen:
         if rng.random() < 0.75:
             main += self.inits()
         main += self.block(maxd, rng.randint(1, 5), False, False)
+        # a long tight loop (only set / if in the body): many sliding steps inside ONE slide() call
+        if rng.random() < self.tight_p:
+            pos = rng.randint(1, len(main))
+            main[pos:pos] = self.tight_loop()
         # a call whose caller has more to do afterwards
         if self.sub_names and rng.random() < 0.6:
             pos = rng.randint(1, len(main))
             main[pos:pos] = [["do", rng.choice(self.sub_names[:2])], rng.choice([["bot", self.botn()], ["user", self.user()]])]
             self.stats["do"] += 1
         return {"id": "main flow", "main": main, "subs": subs, "stats": dict(self.stats)}
+
+    def tight_loop(self):
+        """`$t = 0; while $t < B: $t = $t + 1; <set / if only>` with B in 50..500, or two nested counters."""
+        rng = self.rng
+        self.ntight += 1
+        self.stats["tight"] = self.stats.get("tight", 0) + 1
+        t = f"t{self.ntight}"
+
+        def filler(v):
+            return rng.choice([
+                [["set", "y", f"${v}"]],
+                [["set", "x", "$x + 1"]],
+                [["if", f"${v} == {rng.choice([7, 30, 61, 120])}", [["set", "b", "True"]], [["set", "q", f"${v}"]]]],
+                [["if", f"${v} > 40", [["set", "y", "1"]], []], ["set", "s", '"a"']],
+            ])
+
+        if rng.random() < 0.7:
+            bound = rng.choice([50, 64, 70, 90, 130, 200, 260, 500])
+            return [["set", t, "0"], ["while", f"${t} < {bound}", [["set", t, f"${t} + 1"]] + filler(t)]]
+        t2 = t + "i"
+        outer, inner = rng.choice([(5, 30), (8, 20), (12, 12), (20, 10)])
+        return [["set", t, "0"],
+                ["while", f"${t} < {outer}",
+                 [["set", t, f"${t} + 1"], ["set", t2, "0"],
+                  ["while", f"${t2} < {inner}", [["set", t2, f"${t2} + 1"]] + filler(t2)]]]]
 
     def user(self):
         self.nu += 1
@@ -515,7 +547,9 @@ class Gen:
                 self.na += 1
                 self.stats["exec"] += 1
                 key = rng.choice([None, "r", "r", "q"])
-                params = rng.choice([{}, {}, {"p": 1}, {"p": "v", "n": 2}])
+                params = rng.choice([{}, {"p": 1}, {"p": "v", "n": 2}, {"a": "$x"}, {"a": "$x", "b": "$y"},
+                                     {"a": "$r", "k": 2}, {"a": "$s", "b": "$nope"}]
+                                    + ([{"a": "$" + self.loopvar, "b": "$x"}] * 2 if self.loopvar else []))
                 out.append(["exec", f"act{self.na}", params, key])
             elif r < 0.75 and depth > 0:
                 self.stats["if"] += 1
@@ -527,7 +561,9 @@ class Gen:
                 self.nc += 1
                 c = f"c{self.nc}"
                 bound = rng.choice([1, 2, 2, 3])
+                saved, self.loopvar = self.loopvar, c
                 body = [["set", c, f"${c} + 1"]] + self.block(depth - 1, rng.randint(1, 3), True, insub)
+                self.loopvar = saved
                 extra = rng.choice(["", "", " and $x < 3", " and not $b"])
                 out.append(["set", c, "0"])
                 out.append(["while", f"${c} < {bound}{extra}", body])
@@ -623,10 +659,15 @@ class Oracle:
         self.subs = dict((n, b) for n, b in prog["subs"])
         self.subs.setdefault(prog["id"], prog["main"])      # `do` may name the dialog flow itself
 
+    _CODE = {}
+
     def ev(self, expr):
-        code = _VAR_RE.sub(r"var_\1", expr)
-        names = {"var_" + m: self.ctx.get(m) for m in _VAR_RE.findall(expr)}
-        return eval(compile(code.strip(), "<expr>", "eval"), {"__builtins__": {}, "len": len}, names)
+        c = Oracle._CODE.get(expr)
+        if c is None:
+            c = (compile(_VAR_RE.sub(r"var_\1", expr).strip(), "<expr>", "eval"), _VAR_RE.findall(expr))
+            Oracle._CODE[expr] = c
+        names = {"var_" + m: self.ctx.get(m) for m in c[1]}
+        return eval(c[0], {"__builtins__": {}, "len": len}, names)
 
     def run_block(self, b):
         for s in b:
@@ -695,7 +736,7 @@ class Oracle:
     def run(self, history):
         """-> ("steps", [...]) | ("raise",) ; also leaves self.wait (what the flow waits on), self.flags."""
         self.ctx, self.upd, self.gen, self.wait, self.next = {}, {}, None, None, None
-        self.budget = 20000
+        self.budget = 60000
         self.depth = 0
         self.flags = set()
         actual = []
@@ -1011,7 +1052,7 @@ def _worker(inp, outp):
             out.flush()
 
 
-def run_impl(programs, tag, timeout):
+def run_impl(programs, tag, timeout, mode="--worker"):
     """programs: [{"idx", "text", "histories"}] -> {idx: record}.  Child processes under `timeout`."""
     tmp = os.path.join(C.BUILD, "c14", tag)
     os.makedirs(tmp, exist_ok=True)
@@ -1027,7 +1068,7 @@ def run_impl(programs, tag, timeout):
         env = dict(os.environ)
         env.update(C.impl_env())
         env["VERIF_REPO"] = C.REPO
-        rc = subprocess.run(["timeout", str(timeout), C.PY, "-m", "harness.c14", "--worker", inp, outp],
+        rc = subprocess.run(["timeout", str(timeout), C.PY, "-m", "harness.c14", mode, inp, outp],
                             cwd=C.VERIF, env=env, stdout=subprocess.PIPE, stderr=subprocess.STDOUT, text=True)
         recs = {}
         if os.path.exists(outp):
@@ -1047,6 +1088,321 @@ def run_impl(programs, tag, timeout):
                 errs.append(f"worker rc={rc}: {log}")
     return out, errs
 
+
+
+# =======================================================================================
+# the layer above compute_next_steps: RuntimeV1_0.generate_events with scripted actions
+
+def scripted_return(name, kwargs):
+    """What the scripted action `name` returns: a pure function of its name and RESOLVED arguments."""
+    vals = [v for _k, v in sorted(kwargs.items())]
+    ints = [v for v in vals if isinstance(v, int) and not isinstance(v, bool)]
+    return (sum(ints) + len(vals) + len(name)) % 5
+
+
+def canon_gevent(e):
+    t = e["type"]
+    if t == "ContextUpdate":
+        return ["ctx", [[k, v] for k, v in e["data"].items()]]
+    if t == "BotIntent":
+        return ["bot", e["intent"]]
+    if t == "StartInternalSystemAction":
+        return ["start", e["action_name"], canon_params(e["action_params"]), e["action_result_key"]]
+    if t == "InternalSystemActionFinished":
+        return ["fin", e["action_name"], e["status"], e.get("return_value")]
+    if t == "Listen":
+        return ["listen"]
+    return ["other", t]
+
+
+def g_oracle_turn(oracle, events):
+    """The structured semantics in closed loop: what generate_events must add to `events`
+    (events[-1] is the new user event): decided steps are carried out - bot intents happen,
+    `execute` calls the action with its `$var` arguments replaced by the values the context
+    holds, its result is stored under the result key - until nothing is decided.
+    -> (new events, canonical action calls) or raises OracleRaise."""
+    events = list(events)
+    new, calls = [], []
+    while True:
+        last = events[-1]
+        if last["type"] == "StartInternalSystemAction":
+            ctx = {"last_user_message": None, "last_bot_message": None}
+            for e in events:
+                if e["type"] == "ContextUpdate":
+                    ctx.update(e["data"])
+            ctx["event"] = last
+            kwargs = dict(last["action_params"])
+            for k, v in kwargs.items():
+                if isinstance(v, str) and v.startswith("$") and v[1:] in ctx:
+                    kwargs[k] = ctx[v[1:]]
+            ret = scripted_return(last["action_name"], kwargs)
+            calls.append([last["action_name"], canon_params(kwargs)])
+            nxt = []
+            key = last["action_result_key"]
+            if key and ctx.get(key) != ret:
+                nxt.append({"type": "ContextUpdate", "data": {key: ret}})
+            nxt.append({"type": "InternalSystemActionFinished", "action_name": last["action_name"],
+                        "status": "success", "return_value": ret})
+        else:
+            r = oracle.run(events)
+            if r[0] == "raise":
+                raise OracleRaise()
+            nxt = []
+            for st in r[1]:
+                if st[0] == "ctx":
+                    nxt.append({"type": "ContextUpdate", "data": {k: v for k, v in st[1]}})
+                elif st[0] == "bot":
+                    nxt.append({"type": "BotIntent", "intent": st[1]})
+                else:
+                    w = oracle.next
+                    nxt.append({"type": "StartInternalSystemAction", "action_name": w[1], "action_params": dict(w[2]),
+                                "action_result_key": w[3]})
+            if not nxt:
+                nxt = [{"type": "Listen"}]
+        events.extend(nxt)
+        new.extend(nxt)
+        if nxt[-1]["type"] == "Listen":
+            return new, calls
+        if len(new) > 100:
+            raise OracleRaise()
+
+
+class OracleRaise(Exception):
+    pass
+
+
+def gen_conversation(rng, prog, oracle, dist):
+    """User turns (each a list of events appended before generate_events is called) chosen with the
+    oracle in closed loop, and the expected transcript: per turn [canonical new events, calls] or ["raise"]."""
+    users, _bots, _acts = prog_intents(prog)
+    first = prog["main"][0][1]
+    events, turns, expected = [], [], []
+    for _ in range(rng.randint(2, 6)):
+        turn = []
+        if rng.random() < 0.35:
+            v = rng.choice(["x", "y", "x", "s"])
+            val = rng.choice([0, 1, 2, 3, 7]) if v != "s" else rng.choice(["a", "", "abc"])
+            turn.append({"type": "ContextUpdate", "data": {v: val}})
+            dist["g-ctx-change"] = dist.get("g-ctx-change", 0) + 1
+        oracle.run(events + turn)
+        w = oracle.wait
+        r = rng.random()
+        if r < 0.75:
+            intent = w[1] if (w is not None and w[0] == "user") else first
+        elif r < 0.88:
+            intent = "ask unknown"
+        else:
+            intent = rng.choice(users)
+        turn.append({"type": "UserIntent", "intent": intent})
+        turns.append(turn)
+        events += turn
+        try:
+            new, calls = g_oracle_turn(oracle, events)
+        except OracleRaise:
+            expected.append(["raise"])
+            break
+        events += new
+        expected.append([[canon_gevent(e) for e in new], calls])
+    return turns, expected
+
+
+def prog_actions(p):
+    return sorted(set(prog_intents(p)[2]))
+
+
+def _gworker(inp, outp):
+    """Reads {"programs": [{"idx","text","actions","conversations":[turns,...]}]}; for every conversation
+    three transcripts: twice on ONE RuntimeV1_0 instance shared by all conversations of the program,
+    once on a fresh instance."""
+    import asyncio
+    import copy
+    import logging
+    import signal
+    sys.path.insert(0, C.REPO)
+    logging.disable(logging.CRITICAL)
+    from nemoguardrails import RailsConfig
+    from nemoguardrails.colang.v1_0.runtime.runtime import RuntimeV1_0
+
+    calls = []
+
+    def mk(name):
+        def act(**kwargs):
+            calls.append([name, canon_params(kwargs)])
+            return scripted_return(name, kwargs)
+        return act
+
+    def build(text, actions):
+        rt = RuntimeV1_0(config=RailsConfig.from_content(colang_content=text))
+        for a in actions:
+            rt.register_action(mk(a), a)
+        return rt
+
+    armed = [False]
+
+    def on_alarm(_s, _f):
+        if armed[0]:
+            raise _Budget()
+
+    signal.signal(signal.SIGALRM, on_alarm)
+
+    async def converse(rt, turns):
+        events, transcript = [], []
+        for turn in turns:
+            events += copy.deepcopy(turn)
+            del calls[:]
+            try:
+                new = await rt.generate_events(events)
+            except _Budget:
+                raise
+            except Exception as e:
+                transcript.append(["raise", type(e).__name__ + ": " + str(e)[:100]])
+                break
+            # snapshot at once: the events alias dicts of the flow configuration
+            transcript.append([[canon_gevent(e) for e in new], list(calls)])
+            events += new
+        return json.loads(json.dumps(transcript, default=str))
+
+    def run(rt, turns):
+        armed[0] = True
+        signal.setitimer(signal.ITIMER_REAL, 10.0, 0.05)
+        try:
+            try:
+                return asyncio.run(converse(rt, turns))
+            except _Budget:
+                armed[0] = False
+                return [["hang"]]
+        except _Budget:
+            armed[0] = False
+            return [["hang"]]
+        finally:
+            armed[0] = False
+            signal.setitimer(signal.ITIMER_REAL, 0)
+
+    job = json.load(open(inp))
+    with open(outp, "w") as out:
+        for pr in job["programs"]:
+            rec = {"idx": pr["idx"]}
+            try:
+                shared = build(pr["text"], pr["actions"])
+            except Exception as e:
+                rec["parse_error"] = type(e).__name__ + ": " + str(e)[:200]
+                out.write(json.dumps(rec) + "\n")
+                out.flush()
+                continue
+            first = [run(shared, t) for t in pr["conversations"]]
+            second = [run(shared, t) for t in pr["conversations"]]
+            fresh = [run(build(pr["text"], pr["actions"]), t) for t in pr["conversations"]]
+            rec["results"] = [list(x) for x in zip(first, second, fresh)]
+            out.write(json.dumps(rec, default=str) + "\n")
+            out.flush()
+
+
+def g_layer(out, rng, tier, replay_payload=None):
+    """generate_events on real RuntimeV1_0 instances vs the structured semantics in closed loop."""
+    info = {"programs": 0, "conversations": 0, "turns": 0, "action_calls": 0, "violations": 0, "dist": {}}
+    progs = []
+    corpus_dir = os.path.join(C.VERIF, "corpus", PID)
+    if replay_payload is not None:
+        progs.append((replay_payload["program"], [replay_payload["turns"]]))
+    else:
+        if os.path.isdir(corpus_dir):
+            for fn in sorted(os.listdir(corpus_dir)):
+                if fn.endswith(".json"):
+                    d = json.load(open(os.path.join(corpus_dir, fn)))
+                    d = d.get("replay", d)
+                    if d.get("kind") == "gpair":
+                        progs.append((d["program"], [d["turns"]]))
+        n = 45 if tier == "quick" else 600
+        if os.environ.get("C14_NGPROG"):
+            n = int(os.environ["C14_NGPROG"])
+        g = Gen(rng, tight_p=0.0)
+        tries = 0
+        while n > 0 and tries < 20 * n + 100:
+            tries += 1
+            p = g.program()
+            if p["stats"].get("exec", 0) == 0:
+                continue
+            progs.append((p, None))
+            n -= 1
+    jobs, metas = [], []
+    for i, (p, convs) in enumerate(progs):
+        orc = Oracle(p)
+        exp = []
+        if convs is None:
+            convs = []
+            for _ in range(3):
+                try:
+                    turns, e = gen_conversation(rng, p, orc, info["dist"])
+                except OracleBudget:
+                    continue
+                convs.append(turns)
+                exp.append(e)
+        else:
+            for turns in convs:
+                events, e = [], []
+                for turn in turns:
+                    events += turn
+                    try:
+                        new, calls = g_oracle_turn(orc, events)
+                    except (OracleRaise, OracleBudget):
+                        e.append(["raise"])
+                        break
+                    events += new
+                    e.append([[canon_gevent(x) for x in new], calls])
+                exp.append(e)
+        try:
+            text = colang_text(p)
+        except Unsupported:
+            continue
+        jobs.append({"idx": i, "text": text, "actions": prog_actions(p), "conversations": convs})
+        metas.append((i, p, text, convs, exp))
+    if not jobs:
+        return info
+    recs, errs = run_impl(jobs, "glayer", 900 if tier == "quick" else 3600, mode="--gworker")
+    for e in errs:
+        out.add_broken("impl-worker(generate_events)", e)
+
+    def norm(tr):
+        return [t[:1] if t and t[0] == "raise" else t for t in tr]
+
+    viol = []
+    for i, p, text, convs, exp in metas:
+        rec = recs.get(i)
+        if rec is None:
+            out.add_broken("impl-worker(generate_events)", f"no result for program #{i}")
+            continue
+        if "parse_error" in rec:
+            out.findings.append(C.Finding("parser-rejects-structured-program", "RailsConfig/RuntimeV1_0 raised: " + rec["parse_error"],
+                                          {"kind": "gpair", "program": p, "turns": [], "text": text}))
+            continue
+        info["programs"] += 1
+        for turns, want, (r1, r2, r3) in zip(convs, exp, rec["results"]):
+            info["conversations"] += 1
+            info["turns"] += len(turns)
+            info["action_calls"] += sum(len(t[1]) for t in want if len(t) == 2)
+            payload = {"kind": "gpair", "program": p, "turns": turns, "text": text}
+            n1, n2, n3, nw = norm(r1), norm(r2), norm(r3), norm(json.loads(json.dumps(want)))
+            size = prog_size(p) + sum(len(t) for t in turns)
+            if not (n1 == n2 == n3):
+                viol.append((size, "generate_events-repeated-call-differs",
+                             "the same conversation on one RuntimeV1_0 instance (1st / 2nd time) and on a fresh instance: "
+                             + json.dumps([r1, r2, r3])[:600], dict(payload, impl=[r1, r2, r3], documented=want)))
+            for tag, got in (("first", n1), ("second", n2), ("fresh", n3)):
+                if got != nw:
+                    k = next((j for j in range(min(len(got), len(nw))) if got[j] != nw[j]), min(len(got), len(nw)))
+                    g_t = got[k] if k < len(got) else None
+                    w_t = nw[k] if k < len(nw) else None
+                    if g_t and w_t and len(g_t) == 2 and len(w_t) == 2 and g_t[1] != w_t[1]:
+                        sig = "action-called-with-wrong-arguments"
+                    else:
+                        sig = "generate_events-differs-from-structured-semantics"
+                    viol.append((size, sig, f"turn {k} ({tag} evaluation): generate_events gives {json.dumps(g_t)[:300]}; "
+                                 f"structured semantics: {json.dumps(w_t)[:300]}", dict(payload, impl=[r1, r2, r3], documented=want)))
+                    break
+    info["violations"] = len(viol)
+    for _sz, sig, what, payload in sorted(viol, key=lambda v: v[0])[:20]:
+        out.findings.append(C.Finding(sig, what, payload))
+    return info
 
 # =======================================================================================
 
@@ -1092,6 +1448,30 @@ def run(tier, seed, replay=None):
         okm, logm = C.coq_make(["theories/V1/InterpRun.vo"])
     if not okm:
         out.add_broken("coq:theories/V1/InterpRun.v", logm)
+
+    # ---- the layer above compute_next_steps: generate_events on real runtime instances with
+    #      scripted actions; runs in a thread beside the main pipeline (its work is in child processes)
+    greplay = None
+    if replay:
+        d = json.load(open(replay))
+        d = d.get("replay", d)
+        if d.get("kind") == "gpair":
+            greplay = d
+    gthread, gbox, gout, ginfo = None, {}, C.Outcome(PID, tier, seed), {}
+    if not replay or greplay:
+        import threading
+        import traceback
+
+        def _g():
+            t0g = time.time()
+            try:
+                gbox["info"] = g_layer(gout, random.Random(seed * 1000003 + 1414), tier, greplay)
+                gbox["info"]["wall_s"] = round(time.time() - t0g, 1)
+            except Exception:
+                gbox["error"] = traceback.format_exc()
+
+        gthread = threading.Thread(target=_g)
+        gthread.start()
 
     n_prog = 140 if tier == "quick" else 2500
     n_hist = 4 if tier == "quick" else 8
@@ -1329,12 +1709,21 @@ def run(tier, seed, replay=None):
     # findings are reported smallest first per signature
     out.findings.sort(key=lambda f: len(json.dumps(f.replay.get("history", []))) + len(f.replay.get("text", "")))
 
+    # ---- the layer above (started at the beginning, runs beside the main pipeline)
+    if gthread is not None:
+        gthread.join()
+        ginfo = gbox.get("info", {})
+        if "error" in gbox:
+            out.add_broken("harness:generate_events-layer", gbox["error"])
+        out.findings += gout.findings
+        out.broken += gout.broken
+
     # ---- thorough: shipped Colang 1.0 flows against V1.Interp
     shipped = {"files": 0, "fit": 0, "cases": 0}
     if tier == "thorough" and not replay and okm:
         shipped = shipped_check(out, rng)
 
-    st = {"if": 0, "while": 0, "do": 0, "tail_do": 0, "break": 0, "continue": 0, "exec": 0, "set": 0}
+    st = {"if": 0, "while": 0, "do": 0, "tail_do": 0, "tight": 0, "break": 0, "continue": 0, "exec": 0, "set": 0}
     depths = {}
     for pe in progs:
         for k in st:
@@ -1354,15 +1743,17 @@ def run(tier, seed, replay=None):
         "correspondence_disagreements": {"interp": len(disagree_i), "spec": len(disagree_s), "compile": len(disagree_c)},
         "oracle_violations": len(oracle_viol), "repeat_violations": len(repeat_viol),
         "impl_wall_s": impl_s, "coq_cases_wall_s": coq_s,
+        "generate_events_layer": ginfo,
     })
     out.assumptions += [
+        "generate_events layer: scripted actions return a pure function of (name, resolved arguments); compared are event types + key fields and the action calls (name, resolved kwargs); expectation = the Python restatement of the structured semantics in closed loop, not the Coq model",
         "new_uuid() is a fresh-name supply (modelled by a counter); uids are only compared for equality",
         "context keys event/config/last_user_message/last_bot_message are not modelled; the expression translator rejects expressions reading them",
         "simpleeval is modelled for the fragment None/bool/int/str/list, not/and/or, comparisons, + -, len, indexing, is None; its MAX_STRING_LENGTH guard is not modelled",
         "next_step_comment / BotIntent.instructions and action uids are not compared",
         "priorities are rationals; the float products priority*0.9 are assumed to compare like the rationals",
         "the Python oracle evaluates expressions with Python's eval (the language simpleeval implements)",
-        "fuel of the executable models: 4000 per slide/resume loop; generated loops are counter-bounded",
+        "fuel of the executable models: 30000 per slide/resume loop; generated loops are counter-bounded (tight loops up to 500 iterations / 20x10 nested)",
     ]
     if tier == "thorough" and b["ok"]:
         ok, log = C.coqchk(PID, b["files"])
@@ -1467,3 +1858,5 @@ def shipped_check(out, rng):
 if __name__ == "__main__":
     if len(sys.argv) == 4 and sys.argv[1] == "--worker":
         _worker(sys.argv[2], sys.argv[3])
+    if len(sys.argv) == 4 and sys.argv[1] == "--gworker":
+        _gworker(sys.argv[2], sys.argv[3])
